@@ -243,4 +243,18 @@ CLAIMED["C19"] = dict(
          "~150 per-statement parsers/printers of fparser1 are not modelled (end-to-end only); statements marked 'ignore' "
          "(the type prefix of a FUNCTION statement) are excluded by hypothesis.",
     technique="Rocq proof (block matcher conserves the statement sequence, induction on fuel) + probe-selected variant + model/fparser1 nesting correspondence + round-trip search over a generated F77/F90 subset")
+CLAIMED["C01"] = dict(
+    design_ref="DESIGN.md 4 (C01)",
+    text="Theorems (regenerated tables and any table passing the decidable check, every leaf oracle, every input): "
+         "if a parse (not through the Main_Program0 fall-back) returns tree t, its leaves are the items in order and "
+         "parsing those statements again returns exactly t and the same reader state -- so, the statements of "
+         "str(t) being the leaves in order (checked on every explored tree) and classified as before, the second "
+         "tree and the second print equal the first. Tie: regenerated tables; engine correspondence on REGENERATED "
+         "texts. Search: generated programs x layouts x standards x comment modes: parse(str(T)) ~ T by canonical "
+         "repr, str(parse(str(T))) == str(T).",
+    note=ENGINE_NOTE + " Partial (named _partial): the ~400 statement-level match()/tostr() pairs are not modelled -- that "
+         "a printed statement is classified like the original is checked end to end only; the first round's items "
+         "carry the source's line numbers (the theorem is exact from round two on); the print order of "
+         "BlockBase.tofortran and its overrides is a correspondence check, not a theorem about the Python.",
+    technique="Rocq proof (engine: re-parse of a tree's own statements is the identity, from K2) + regenerated tables + print-order and engine correspondence + round-trip search")
 NOT_CLAIMED = {}
